@@ -532,7 +532,7 @@ fn wait_for(me: usize) {
             return;
         }
         spins += 1;
-        if spins < 2000 {
+        if spins < 2000 && !cfg!(miri) {
             std::hint::spin_loop();
         } else {
             std::thread::yield_now();
@@ -543,7 +543,9 @@ fn wait_for(me: usize) {
 /// Worker prologue: become participant `t` and wait for the token.
 pub fn token_enter(t: usize) {
     set_tid(t);
-    TOK.ostid[t].store(unsafe { libc::syscall(libc::SYS_gettid) } as i64, Relaxed);
+    if !cfg!(miri) {
+        TOK.ostid[t].store(unsafe { libc::syscall(libc::SYS_gettid) } as i64, Relaxed);
+    }
     wait_for(t);
 }
 
@@ -698,6 +700,8 @@ fn token_step(site: u16) {
         TOK.cur.store(next, Release);
         wait_for(me);
     }
+    // re-borrow: other token holders had their own exclusive access in the meantime
+    let inn = unsafe { inner() };
     if inn.solo_fresh && inn.solo == me {
         // first step of the solo thread after the freeze: from here on it runs alone
         inn.solo_fresh = false;
